@@ -18,4 +18,3 @@ func BuildErrClass(out string) string {
 	}
 	return s
 }
-
